@@ -17,7 +17,8 @@ type Fam = (&'static str, &'static str, Option<&'static [&'static str]>);
 
 fn families(property: &str) -> Vec<Fam> {
     const C02_CORE: &[&str] = &["routing", "flush", "probe", "panic", "spin", "livelock"];
-    const C09_CORE: &[&str] = &["spin", "livelock", "sleep", "abandoned"];
+    // "flush": data handed to a sink but not flushed while nothing will wake the router is work the router sleeps on
+    const C09_CORE: &[&str] = &["spin", "livelock", "sleep", "abandoned", "flush"];
     // a peer whose registration was accepted (the server answered Ok) and then never reached the router
     const C11_STORM: &[&str] = &["abandoned", "panic", "spin", "livelock"];
     const C01_CORE: &[&str] = &["delivery", "flush", "probe", "panic"];
@@ -28,7 +29,7 @@ fn families(property: &str) -> Vec<Fam> {
         // … and the shutdown family: a message accepted before the channel closes must still be delivered
         "C01" => vec![("pubsub", "c01", None), ("pubsub", "c01", None), ("pubsub", "c08", None), ("pubsub", "c16", Some(C01_CORE)), ("pubsub", "firehose", None)],
         // replier bind/unbind interleaved with requests and replies is part of the quantifier
-        "C02" => vec![("reqrep", "c02", None), ("reqrep", "c02", None), ("reqrep", "c10", Some(C02_CORE)), ("reqrep", "firehose", None)],
+        "C02" => vec![("reqrep", "c02", None), ("reqrep", "c02", None), ("reqrep", "c10", Some(C02_CORE)), ("reqrep", "c08", Some(C02_CORE)), ("reqrep", "firehose", None)],
         "C08" => vec![("pubsub", "c08", None), ("reqrep", "c08", None)],
         // "all reachable router states" includes the states reached through faults and re-binding
         "C09" => vec![("pubsub", "c09", None), ("reqrep", "c09", None), ("pubsub", "c09", None), ("reqrep", "c09", None), ("pubsub", "c08", Some(C09_CORE)), ("reqrep", "c08", Some(C09_CORE)), ("reqrep", "c10", Some(C09_CORE)), ("pubsub", "burst", None), ("reqrep", "burst", None), ("pubsub", "firehose", None), ("reqrep", "firehose", None)],
